@@ -2,7 +2,8 @@
 from .openbase import run_open, replay_open
 
 CL = {1: "labels clockwise from the big blind are not the standard order for the number of slots (dead button / dead small blind skipped)",
-      2: "a player who is not dealt in carries a label", 4: "the published next-big-blind order is not the players with chips clockwise from the seat after the big blind", 3: "the hand engine did not receive the table's labels (up to the synthetic dealer on entry 0)"}
+      2: "a player who is not dealt in carries a label", 4: "the published next-big-blind order is not the players with chips clockwise from the seat after the big blind", 3: "the hand engine did not receive the table's labels (up to the synthetic dealer on entry 0)",
+      5: "a player's labels changed between the opened snapshot and a later snapshot of the same hand (playing / settled)"}
 
 
 def run(res, replay=None):
